@@ -161,6 +161,7 @@ def sortStrings (l : List String) : List String :=
 def showState (w : World A R) : List String :=
   w.mocks.zipIdx.map fun (m, k) =>
     let s := m.shared
+    if w.strong k == 0 then s!"state sh={k} dead" else
     s!"state sh={k} fb={if s.fallback = .unmock then "unmock" else "error"} next={s.nextOrdered} strong={w.strong k} reasons=[" ++
       " | ".intercalate (s.reasons.map (showErr s)) ++ "] fns=" ++
       " ".intercalate (sortStrings (s.mockers.map showMocker))
